@@ -8,8 +8,10 @@ import archlib
 from core import Driver, Failure, q, ql
 
 ID = "C06"
-PROOF_MODULES = ["PyribsProofs.C06", "PyribsProofs.C06b", "PyribsProofs.Cqd", "PyribsProofs.C14b", "PyribsProofs.C15b"]
+from genf import translate  # noqa: E402,F401  (regenerates lean/PyribsGen/Formulas.lean from the tree under check)
+PROOF_MODULES = ["PyribsProofs.C06", "PyribsProofs.C06b", "PyribsProofs.Cqd", "PyribsProofs.C14b", "PyribsProofs.C15b", "PyribsGen.Formulas", "PyribsProofs.GenF"]
 THEOREMS = [
+    "Pyribs.GenFProofs.stats_match",
     "Pyribs.C06.sum_point_update",
     "Pyribs.C06.totalObj_applyWs",
     "Pyribs.C06.batchWrites_nodup",
